@@ -1,5 +1,6 @@
 import CelmaVerif.Lemmas.RulesCInv
 import CelmaVerif.Lemmas.RulesLevel
+import CelmaVerif.Lemmas.RulesValueC
 /-
   Rules layer, part 9: completeness — an abstract command line that obeys the declared rules is
   accepted.
@@ -45,14 +46,17 @@ structure CompInv (cfg : Cfg) (inits : List DVal) (h : HState) : Prop where
   args  : ArgInv cfg inits h
   glob  : GlobInv cfg h
   cinv  : CInv cfg inits h
+  vals  : ValInv cfg inits h
 
 theorem compInv_init (cfg : Cfg) (inits : List DVal) (hin : cfg.args.length ≤ inits.length) :
     CompInv cfg inits (cfg.initState inits) :=
-  ⟨frame_init cfg inits hin, argInv_init cfg inits hin, globInv_init cfg inits, cInv_init cfg inits hin⟩
+  ⟨frame_init cfg inits hin, argInv_init cfg inits hin, globInv_init cfg inits, cInv_init cfg inits hin,
+    valInv_init cfg inits hin⟩
 
 theorem compInv_step {cfg : Cfg} (wf : cfg.WellFormed) {inits : List DVal} {h : HState} {u : Use} {h' : HState}
     (a : CompInv cfg inits h) (e : applyUse cfg h u = .ok h') : CompInv cfg inits h' :=
-  ⟨frame_step a.frame e, argInv_step a.frame a.args e, globInv_step a.glob e, cInv_step wf a.frame a.cinv e⟩
+  ⟨frame_step a.frame e, argInv_step a.frame a.args e, globInv_step a.glob e, cInv_step wf a.frame a.cinv e,
+    valInv_step a.frame a.vals e⟩
 
 /-- the hypotheses about the whole command line -/
 structure Admissible (cfg : Cfg) (inits : List DVal) (us : List Use) : Prop where
@@ -127,7 +131,9 @@ theorem applyUse_complete {cfg : Cfg} {inits : List DVal} {us pre post : List Us
         omega
       have h3 := ad.obeys.globals g (List.mem_of_getElem? hg)
       cases hkk : g.kind with
-      | allOf => exact hk hkk
+      | allOf => rw [hkk] at hk; rcases hk with c | c <;> cases c
+      | differ => rw [hkk] at hk; rcases hk with c | c <;> cases c
+      | disjoint => rw [hkk] at hk; rcases hk with c | c <;> cases c
       | anyOf => rw [hkk] at h3; dsimp only at h3; omega
       | oneOf => rw [hkk] at h3; dsimp only at h3; omega
   · intro cnt hcnt
@@ -171,7 +177,8 @@ theorem applyUses_complete {cfg : Cfg} (wf : cfg.WellFormed) {inits : List DVal}
     exact ⟨h', by simp only [applyUses, e1, Res.bind_ok]; exact e', hu', inv'⟩
 
 /-- the final checks pass on a command line that obeys the rules -/
-theorem endChecks_complete {cfg : Cfg} {inits : List DVal} {us : List Use} {h : HState}
+theorem endChecks_complete {cfg : Cfg} (wf : cfg.WellFormed) {inits : List DVal}
+    (hin : cfg.args.length ≤ inits.length) {us : List Use} {h : HState}
     (huses : h.uses = us) (inv : CompInv cfg inits h) (ad : Admissible cfg inits us) :
     ∃ h', endChecks cfg h = .ok h' := by
   have c1 : checkMandatoryCardinality cfg.args h.args = .ok () := by
@@ -225,14 +232,22 @@ theorem endChecks_complete {cfg : Cfg} {inits : List DVal} {us : List Use} {h : 
       rw [huses] at hu0 hnot
       obtain ⟨q, w, hpq, hw, hwi, hdes⟩ := ad.obeys.requires p u0 d0 ks x.1 hu0 hd0 hc0 hk0
       exact hnot hx2 q w hpq hw hwi hdes
-  have c3 : checkGlobals cfg.globals h.globals = .ok () := by
+  have c3 : checkGlobals cfg.args h.args cfg.globals h.globals = .ok () := by
     apply checkGlobals_progress
     intro n g st hg hs
-    have hob := ad.obeys.globals g (List.mem_of_getElem? hg)
-    unfold GDef.endCheck
+    have hgm : g ∈ cfg.globals := List.mem_of_getElem? hg
+    have hob := ad.obeys.globals g hgm
     cases hk : g.kind with
+    | differ =>
+      rw [hk] at hob; dsimp only at hob
+      exact differ_complete wf hin inv.args inv.vals hgm hk (by rw [huses]; exact hob) st
+    | disjoint =>
+      rw [hk] at hob; dsimp only at hob
+      exact disjoint_complete wf hin inv.vals hgm hk (by rw [huses]; exact hob) st
     | allOf =>
+      unfold GDef.endCheck
       rw [hk] at hob; dsimp only at hob ⊢
+      rw [hk]; dsimp only
       obtain ⟨hsl, hno⟩ := inv.cinv.remaining n g st hg hs hk
       cases hr : st.remaining with
       | nil => rfl
@@ -241,10 +256,12 @@ theorem endChecks_complete {cfg : Cfg} {inits : List DVal} {us : List Use} {h : 
         have hkm : k ∈ st.remaining := by rw [hr]; exact List.mem_cons_self
         obtain ⟨u, hu, hui, hdes⟩ := hob k (hsl.subset hkm)
         exact hno k hkm u (by rw [huses]; exact hu) hui hdes
-    | anyOf => rfl
+    | anyOf => unfold GDef.endCheck; rw [hk]; rfl
     | oneOf =>
+      unfold GDef.endCheck
       rw [hk] at hob; dsimp only at hob ⊢
-      have := inv.glob.used n g st hg hs (by rw [hk]; intro c; cases c)
+      rw [hk]; dsimp only
+      have := inv.glob.used n g st hg hs (Or.inr hk)
       rw [huses, hob] at this
       cases hu : st.used with
       | true => rfl
@@ -272,7 +289,7 @@ theorem rules_complete {cfg : Cfg} (wf : cfg.WellFormed) {inits : List DVal}
     exact levels i d v hi hk hv
   obtain ⟨h1, e1, hu1, inv1⟩ := applyUses_complete wf ad us [] (cfg.initState inits) (by simp)
     (by simp [Cfg.initState]) (compInv_init cfg inits hin) lf
-  obtain ⟨h2, e2⟩ := endChecks_complete hu1 inv1 ad
+  obtain ⟨h2, e2⟩ := endChecks_complete wf hin hu1 inv1 ad
   exact ⟨h2, by unfold evalUses; simp only [e1, Res.bind_ok]; exact e2⟩
 
 /-- completeness without LevelCounter arguments: if the command line obeys the declared rules and
